@@ -123,11 +123,15 @@ var zzMessages = []string{
 }
 
 func zzMessage(name string) string {
-	k := verif.Choice(name+".shape", len(zzMessages)+1)
+	nshapes := len(zzMessages)
+	if verif.Bound("msgbytes", 0, 1) > 0 {
+		nshapes++
+	}
+	k := verif.Concrete(verif.Choice(name+".shape", nshapes))
 	if k < len(zzMessages) {
 		return zzMessages[k]
 	}
-	n := verif.IntRange(name+".len", 1, verif.Bound("msgbytes", 2, 3))
+	n := verif.IntRange(name+".len", 1, verif.Bound("msgbytes", 0, 1))
 	n = verif.Concrete(n)
 	return verif.String(name+".bytes", n)
 }
@@ -403,12 +407,23 @@ func zzHex(h githash.Hash) string { return h.String() }
 
 func zzParserHarness(kind int) {
 	header := [...]string{ReferenceEntryHeader, AnnotationEntryHeader, PropagationEntryHeader}[kind]
-	n := verif.Concrete(verif.IntRange("nlines", 0, verif.Bound("lines", 3, 5)))
+	n := verif.Concrete(verif.IntRange("nlines", 0, verif.Bound("lines", 2, 3)))
 	lines := []string{header, ""}
+	if kind == zzKindProp {
+		// the first two (of four) mandatory fields are given, so that
+		// acceptance is reachable within the line bound
+		lines = append(lines, RefKey+": refs/heads/main", TargetIDKey+": 0102030405060708090a0b0c0d0e0f1011121314")
+	}
 	for i := 0; i < n; i++ {
 		lines = append(lines, zzLine(kind, i))
 	}
 	text := strings.Join(lines, "\n")
+	zzCompareWithSpec(kind, text)
+}
+
+// zzCompareWithSpec parses text with the real parser and with the reference
+// grammar and asserts agreement, then the canonical-text fixpoint.
+func zzCompareWithSpec(kind int, text string) {
 	id := zzHash("id", 20, 0)
 
 	entry, err := parseRSLEntryText(id, text)
@@ -486,6 +501,54 @@ func zzParserHarness(kind int) {
 		}
 	}
 }
+
+// zzMutatedHarness: a valid, complete entry text with one structured
+// mutation: a line from the menu inserted at any position, a line deleted,
+// two adjacent lines swapped, or a line replaced by a menu line.
+func zzMutatedHarness(kind int) {
+	header := [...]string{ReferenceEntryHeader, AnnotationEntryHeader, PropagationEntryHeader}[kind]
+	var body []string
+	switch kind {
+	case zzKindRef:
+		body = []string{RefKey + ": refs/heads/main", TargetIDKey + ": 0102030405060708090a0b0c0d0e0f1011121314", NumberKey + ": 5"}
+	case zzKindAnn:
+		body = []string{EntryIDKey + ": 0102030405060708090a0b0c0d0e0f1011121314", EntryIDKey + ": 1112131415161718191a1b1c1d1e1f2021222324", SkipKey + ": true", NumberKey + ": 5",
+			BeginMessage, "bXNn", EndMessage}
+	default:
+		body = []string{RefKey + ": refs/heads/main", TargetIDKey + ": 0102030405060708090a0b0c0d0e0f1011121314", UpstreamRepositoryKey + ": https://example.com/r",
+			UpstreamEntryIDKey + ": 2122232425262728292a2b2c2d2e2f3031323334", NumberKey + ": 5"}
+	}
+	nfields := len(body)
+	if kind == zzKindAnn {
+		nfields = 4 // mutations are applied to the field lines, not inside the PEM block
+	}
+	var lines []string
+	switch verif.Concrete(verif.Choice("mutation", 4)) {
+	case 0: // insert
+		at := verif.Concrete(verif.IntRange("at", 0, nfields))
+		lines = append(lines, body[:at]...)
+		lines = append(lines, zzLine(kind, 0))
+		lines = append(lines, body[at:]...)
+	case 1: // delete
+		at := verif.Concrete(verif.IntRange("at", 0, nfields-1))
+		lines = append(lines, body[:at]...)
+		lines = append(lines, body[at+1:]...)
+	case 2: // swap neighbours
+		at := verif.Concrete(verif.IntRange("at", 0, nfields-2))
+		lines = append(lines, body...)
+		lines[at], lines[at+1] = lines[at+1], lines[at]
+	default: // replace
+		at := verif.Concrete(verif.IntRange("at", 0, nfields-1))
+		lines = append(lines, body...)
+		lines[at] = zzLine(kind, 0)
+	}
+	text := strings.Join(append([]string{header, ""}, lines...), "\n")
+	zzCompareWithSpec(kind, text)
+}
+
+func HarnessC14MutatedReference()   { zzMutatedHarness(zzKindRef) }
+func HarnessC14MutatedAnnotation()  { zzMutatedHarness(zzKindAnn) }
+func HarnessC14MutatedPropagation() { zzMutatedHarness(zzKindProp) }
 
 func HarnessC14ParserReference()   { zzParserHarness(zzKindRef) }
 func HarnessC14ParserAnnotation()  { zzParserHarness(zzKindAnn) }
